@@ -49,7 +49,7 @@ def last_request(kind, rng, srv, objs):
     v = rng.choice(rig.VERSIONS)
     kw = {}
     if kind == 'create':
-        ops = [op_create(names=['last-%d' % rng.randrange(10 ** 6)], policy=rng.choice((None, 'public')))]
+        ops = [op_create(names=['last-%d' % rng.randrange(10 ** 6)], policy=rng.choice((None, 'open')))]
     elif kind == 'register':
         k = rng.choice(store.KINDS)
         sec, _ = store.make_secret(k, store.canary(rng, 16))
